@@ -7,13 +7,13 @@ Open Scope list_scope.
 Local Opaque FUEL.
 
 (* the current composition and nothing else: no flags, no caches, clean recursion cache *)
-Definition fresh (st : state) : state := mkState (map thaw_obj (heap st)) [].
+Definition fresh (st : state) : state := mkState (map thaw_obj (heap st)) [] (ptab st).
 
 Lemma thaw_fresh : forall st, inflight st = [] -> thaw st = fresh st.
-Proof. intros [h i] H. simpl in H. subst. reflexivity. Qed.
+Proof. intros [h i pt] H. simpl in H. subst. reflexivity. Qed.
 
 Lemma fresh_of_thaw : forall a b, thaw a = thaw b -> fresh a = fresh b.
-Proof. intros a b H. unfold thaw in H. injection H as H1 H2. unfold fresh. now rewrite H1. Qed.
+Proof. intros a b H. unfold thaw in H. injection H as H1 H2 H3. unfold fresh. now rewrite H1, H3. Qed.
 
 Lemma inflight_of_thaw : forall a b, thaw a = thaw b -> inflight a = inflight b.
 Proof. intros a b H. unfold thaw in H. now injection H. Qed.
@@ -23,8 +23,8 @@ Proof. intros a b H. unfold thaw in H. now injection H. Qed.
 Definition guard (cfg : config) (st : state) (x : op) : Prop :=
   match x with
   | OFailWalk _ => cleanup cfg = true
-  | ONew _ _ _ | OSet _ _ _ | OAppend _ _ | ODel _ _ | OCopy _ => quiet st (fst (step cfg x st))
-  | OQuery _ _ | OFreeze _ | OUnfreeze _ => True
+  | ONew _ _ _ | OSet _ _ _ | OSetItem _ _ _ | OAppend _ _ | ODel _ _ | OCopy _ => quiet st (fst (step cfg x st))
+  | OQuery _ _ | OFreeze _ | OUnfreeze _ | ODerive _ => True
   end.
 
 Fixpoint guarded (cfg : config) (ops : list op) (st : state) : Prop :=
@@ -38,6 +38,38 @@ Proof. intros. unfold unit_ans, bind. destruct (c st) as [st1 [a|e]]; reflexivit
 
 Lemma Pres_unit_ans : forall c, Pres c -> Pres (unit_ans c).
 Proof. intros c H. unfold unit_ans. apply Pres_bind; auto. intros; apply Pres_ret. Qed.
+
+Lemma Pres_gets : forall {A} (f : state -> A), Pres (gets f).
+Proof. intros A f st H. simpl. auto. Qed.
+
+(* prior passing only thaws: flags and caches change, the composition does not *)
+Lemma Pres_derive : forall n idf a o, Pres (derive n idf a o).
+Proof.
+  induction n as [|n IH]; intros idf a o; simpl; [apply Pres_raise|].
+  assert (Hneed : forall p, Pres (if memb (idf p) a then ret tt else raise EKeyError)).
+  { intros p. destruct (memb (idf p) a); [apply Pres_ret|apply Pres_raise]. }
+  apply Pres_bind; [apply Pres_gets|]. intros [[[cls| |] attrs]|]; [| |apply Pres_ret|apply Pres_raise].
+  - apply Pres_bind. { first [apply Pres_unfreeze | apply Pres_ret | (destruct derive_thaws; [apply Pres_unfreeze|apply Pres_ret])]. } intros _.
+    apply Pres_bind. { apply Pres_mapM. intros [k v]. simpl. destruct v; try apply Pres_ret. apply Hneed. } intros _.
+    apply Pres_bind.
+    { apply Pres_mapM. intros [k v]. simpl. destruct v as [p|c|c]; try apply Pres_ret.
+      apply Pres_bind; [apply Pres_gets|]. intros [[[cc| |] tattrs]|]; try apply Pres_ret.
+      apply Pres_bind; [|intros; apply Pres_ret].
+      apply Pres_mapM. intros [mk mv]. simpl. destruct mv; try apply Pres_ret. apply Hneed. }
+    intros _. apply Pres_bind; [|intros; apply Pres_ret].
+    apply Pres_mapM. intros [k v]. simpl. destruct v as [p|c|c]; try apply Pres_ret.
+    apply Pres_bind; [apply Pres_gets|]. intros [|]; [apply IH|apply Pres_ret].
+  - apply Pres_bind; [|intros; apply Pres_ret].
+    apply Pres_mapM. intros [k v]. simpl. destruct v as [p|c|c]; [apply Hneed|apply Pres_ret|].
+    apply Pres_bind; [apply Pres_gets|]. intros [|]; [apply IH|apply Pres_ret].
+Qed.
+
+Lemma Pres_op_derive : forall o, Pres (op_derive o).
+Proof.
+  intros. unfold op_derive. apply Pres_bind; [apply Coh_Pres, Coh_call_attr|]. intros c.
+  apply Pres_bind; [apply Coh_Pres, Coh_as_list|]. intros l.
+  apply Pres_bind; [apply Pres_gets|]. intros idf. apply Pres_derive.
+Qed.
 
 Lemma step_ok : forall cfg x st, Inv st -> guard cfg st x ->
   Inv (fst (step cfg x st)) /\ inflight (fst (step cfg x st)) = inflight st.
@@ -57,15 +89,17 @@ Proof.
   - apply Hpr. apply Pres_freeze.
   - apply Hpr. apply Pres_unfreeze.
   - apply Hfr; auto. apply Frm_op_set.
+  - apply Hfr; auto. apply Frm_op_setitem.
+  - apply Hpr. apply Pres_op_derive.
   - apply Hfr; auto. apply Frm_op_append.
   - apply Hfr; auto. apply Frm_op_del.
   - apply Hfr; auto. apply Frm_op_copy.
   - rewrite fst_unit_ans. unfold op_failwalk. rewrite G. simpl. auto.
 Qed.
 
-Lemma Inv_init : Inv init.
+Lemma Inv_init : forall cfg, Inv (init cfg).
 Proof.
-  split.
+  intros cfg. split.
   - intros o ob k v G. unfold get, init in G. simpl in G. destruct o; discriminate.
   - intros o ob G. unfold get, init in G. simpl in G. destruct o; discriminate.
 Qed.
@@ -111,25 +145,25 @@ Proof.
 Qed.
 
 (* headline: in every guarded history every query answers the uncached query on the current composition *)
-Theorem coherent_histories : forall cfg pre o q, guarded cfg pre init ->
-  snd (run cfg (pre ++ [OQuery o q]) init) =
-  snd (run cfg pre init) ++ [snd (run_query cfg o q (fresh (fst (run cfg pre init))))].
+Theorem coherent_histories : forall cfg pre o q, guarded cfg pre (init cfg) ->
+  snd (run cfg (pre ++ [OQuery o q]) (init cfg)) =
+  snd (run cfg pre (init cfg)) ++ [snd (run_query cfg o q (fresh (fst (run cfg pre (init cfg)))))].
 Proof.
   intros cfg pre o q G. rewrite run_app. simpl.
-  destruct (guarded_ok cfg pre init Inv_init eq_refl G) as (I & Hi).
-  destruct (query_coherent cfg (fst (run cfg pre init)) o q I Hi) as (E & _).
-  destruct (run_query cfg o q (fst (run cfg pre init))) as [st1 a]. simpl in *. now rewrite E.
+  destruct (guarded_ok cfg pre (init cfg) (Inv_init cfg) eq_refl G) as (I & Hi).
+  destruct (query_coherent cfg (fst (run cfg pre (init cfg))) o q I Hi) as (E & _).
+  destruct (run_query cfg o q (fst (run cfg pre (init cfg)))) as [st1 a]. simpl in *. now rewrite E.
 Qed.
 
 (* two guarded histories that end in the same composition answer every query alike *)
 Theorem history_independent : forall cfg pre1 pre2 o q,
-  guarded cfg pre1 init -> guarded cfg pre2 init ->
-  fresh (fst (run cfg pre1 init)) = fresh (fst (run cfg pre2 init)) ->
-  snd (run_query cfg o q (fst (run cfg pre1 init))) = snd (run_query cfg o q (fst (run cfg pre2 init))).
+  guarded cfg pre1 (init cfg) -> guarded cfg pre2 (init cfg) ->
+  fresh (fst (run cfg pre1 (init cfg))) = fresh (fst (run cfg pre2 (init cfg))) ->
+  snd (run_query cfg o q (fst (run cfg pre1 (init cfg)))) = snd (run_query cfg o q (fst (run cfg pre2 (init cfg)))).
 Proof.
   intros cfg pre1 pre2 o q G1 G2 E.
-  destruct (guarded_ok cfg pre1 init Inv_init eq_refl G1) as (I1 & H1).
-  destruct (guarded_ok cfg pre2 init Inv_init eq_refl G2) as (I2 & H2).
+  destruct (guarded_ok cfg pre1 (init cfg) (Inv_init cfg) eq_refl G1) as (I1 & H1).
+  destruct (guarded_ok cfg pre2 (init cfg) (Inv_init cfg) eq_refl G2) as (I2 & H2).
   destruct (query_coherent cfg _ o q I1 H1) as (E1 & _). destruct (query_coherent cfg _ o q I2 H2) as (E2 & _).
   rewrite E1, E2, E. reflexivity.
 Qed.
@@ -259,9 +293,15 @@ Proof.
   apply in_flat_map. exists (k, VRef c). split; auto. now left.
 Qed.
 
+Definition ids_same (st st' : state) (t : nat) : bool :=
+  match get st t with
+  | Some ob => forallb (fun kv : string * value =>
+                 match snd kv with VPrior p => Nat.eqb (pid_of st' p) (pid_of st p) | _ => true end) (oattrs ob)
+  | None => true
+  end.
 Definition quiet_obj (st st' : state) (o : nat) : bool :=
   let S := closure st (List.length (heap st)) [o] in
-  memb o S && closedb st S && forallb (fun t => comp_eqb (comp_at st' t) (comp_at st t)) S.
+  memb o S && closedb st S && forallb (fun t => comp_eqb (comp_at st' t) (comp_at st t) && ids_same st st' t) S.
 
 Definition frozen_ids (st : state) : list nat :=
   filter (fun o => match get st o with Some ob => ofrozen ob | None => false end) (seq 0 (List.length (heap st))).
@@ -270,22 +310,28 @@ Definition quietb (st st' : state) : bool := forallb (quiet_obj st st') (frozen_
 
 Lemma quietb_sound : forall st st', quietb st st' = true -> quiet st st'.
 Proof.
-  intros st st' H o ob G F t R. unfold quietb in H. rewrite forallb_forall in H.
+  intros st st' H o ob G F. unfold quietb in H. rewrite forallb_forall in H.
   assert (Hin : In o (frozen_ids st)).
   { unfold frozen_ids. apply filter_In. split.
     - apply in_seq. split; [lia|]. simpl. apply nth_error_Some. unfold get in G. congruence.
     - now rewrite G. }
   specialize (H o Hin). unfold quiet_obj in H.
   apply andb_true_iff in H as [H H3]. apply andb_true_iff in H as [H1 H2].
-  rewrite forallb_forall in H3. apply comp_eqb_eq. apply H3.
-  apply (Reach_closed st _ H2 o t R). now apply memb_In.
+  rewrite forallb_forall in H3. split.
+  - intros t R. apply comp_eqb_eq.
+    assert (Ht : In t (closure st (List.length (heap st)) [o])) by (apply (Reach_closed st _ H2 o t R); now apply memb_In).
+    specialize (H3 t Ht). now apply andb_true_iff in H3 as [H3 _].
+  - intros p (t & tb & k & R & Gt & It).
+    assert (Ht : In t (closure st (List.length (heap st)) [o])) by (apply (Reach_closed st _ H2 o t R); now apply memb_In).
+    specialize (H3 t Ht). apply andb_true_iff in H3 as [_ H3]. unfold ids_same in H3. rewrite Gt in H3.
+    rewrite forallb_forall in H3. specialize (H3 _ It). simpl in H3. now apply Nat.eqb_eq in H3.
 Qed.
 
 Definition guardb (cfg : config) (st : state) (x : op) : bool :=
   match x with
   | OFailWalk _ => cleanup cfg
-  | ONew _ _ _ | OSet _ _ _ | OAppend _ _ | ODel _ _ | OCopy _ => quietb st (fst (step cfg x st))
-  | OQuery _ _ | OFreeze _ | OUnfreeze _ => true
+  | ONew _ _ _ | OSet _ _ _ | OSetItem _ _ _ | OAppend _ _ | ODel _ _ | OCopy _ => quietb st (fst (step cfg x st))
+  | OQuery _ _ | OFreeze _ | OUnfreeze _ | ODerive _ => true
   end.
 
 Fixpoint guardedb (cfg : config) (ops : list op) (st : state) : bool :=
@@ -317,7 +363,7 @@ Definition check_guard (c : case) : bool :=
   match c with
   | Case cl pr ops outs fz =>
       let cfg := mkConfig cl pr wrapper_cleanup in
-      guardedb cfg ops init && pure_outcomes cfg ops init
+      guardedb cfg ops (init cfg) && pure_outcomes cfg ops (init cfg)
   end.
 
 (* deepcopy leaves every existing object exactly as it was *)
@@ -325,15 +371,15 @@ Theorem copy_keeps_originals : forall cfg st o t ob, get st t = Some ob ->
   get (fst (step cfg (OCopy o) st)) t = Some ob.
 Proof.
   intros cfg st o t ob G. cbn [step]. rewrite fst_unit_ans. unfold op_copy.
-  pose proof (copy_val_appends FUEL (VRef o) (heap st, [])) as (ext & E & F).
-  destruct (copy_val FUEL (VRef o) (heap st, [])) as [cs v]. simpl in *. rewrite E. now apply get_app_old.
+  pose proof (copy_val_appends FUEL (VRef o) (mkC (heap st) [] (ptab st) [])) as (ext & E & F).
+  destruct (copy_val FUEL (VRef o) (mkC (heap st) [] (ptab st) [])) as [cs v]. simpl in *. rewrite E. now apply get_app_old.
 Qed.
 
 (* the full statement of the property for a configuration: EVERY history *)
 Definition coherent_everywhere (cfg : config) : Prop :=
   forall pre o q,
-    snd (run cfg (pre ++ [OQuery o q]) init) =
-    snd (run cfg pre init) ++ [snd (run_query cfg o q (fresh (fst (run cfg pre init))))].
+    snd (run cfg (pre ++ [OQuery o q]) (init cfg)) =
+    snd (run cfg pre (init cfg)) ++ [snd (run_query cfg o q (fresh (fst (run cfg pre (init cfg)))))].
 
 (* with the repaired wrapper a failing call is harmless *)
 Theorem repaired_allows_failing_calls : forall cl pr st o, guard (mkConfig cl pr true) st (OFailWalk o).
